@@ -787,7 +787,7 @@ int main(int argc, char **argv) {
                         if (!th && h >= 0 && fshape != 0) continue;
                         if (!th && fshape == 1 && !(s3 == 0 || s3 == 2 || s3 == 5 || s3 == 6)) continue;
                         if (!vp::mine(caseno++)) continue;
-                        if ((++mine_count & 0x3f) == 0 && vp::past_deadline()) {
+                        if ((++mine_count & 0x3) == 0 && vp::past_deadline()) {
                           vp::incomplete("cut at f shape " + std::to_string(fshape) + " s1=" + std::to_string(s1) + " s2=" + std::to_string(s2));
                           cut = true;
                           break;
